@@ -574,6 +574,20 @@ func parseFieldsCmd(args []string) int {
 			stats["syscall_names"]++
 		}
 	}
+	// numbers against the kernel's own table (transcribed in UAPI.tla) for x86_64 and i386
+	for _, a := range []string{"x86_64", "i386"} {
+		for nr := 0; nr <= 450; nr++ {
+			body := fmt.Sprintf("exe=\"/bin/x\" arch=%x syscall=%d success=yes exit=0", archCodes[a], nr)
+			d, _, pan := dataOf(1300, body)
+			rec := base("uapi_syscall", 1300, "syscall")
+			rec["archname"], rec["nr"], rec["panic"], rec["body"], rec["gotname"] = a, nr, pan, body, ""
+			if g, ok := d["syscall"]; ok {
+				rec["present"], rec["gotname"] = true, g
+			}
+			w.write(rec)
+			stats["uapi_syscalls"]++
+		}
+	}
 	// socket addresses
 	saddr := func(raw []byte, fam string, addr []byte, port int, path []byte) {
 		enc := strings.ToUpper(hex.EncodeToString(raw))
